@@ -79,7 +79,8 @@ ClauseCalls(f) ==
 Outside == {"T5", "Q6", "C7"}     \* (A1: the table t1 under an alias and T1b: an equal, distinct Table("t1") object appear in the correlated comparisons below)
 NameCalls == IF kind = "insertvalues" THEN {[m |-> "columns", names |-> <<"a", "b">>], [m |-> "on_conflict", names |-> <<"a">>], [m |-> "do_nothing"]}
              ELSE IF kind = "insertselect" THEN {[m |-> "columns", names |-> <<"a">>], [m |-> "on_conflict", names |-> <<"a">>], [m |-> "do_nothing"]} ELSE {}
-Clause == /\ stage >= 3 /\ stage < 3 + MaxClauses
+\* (insertselect statements already hold a select item when they get here: two further clause calls give what three gave before)
+Clause == /\ stage >= 3 /\ stage < 3 + (IF kind = "insertselect" /\ MaxClauses > 2 THEN 2 ELSE MaxClauses)
           /\ \/ \E s \in scope \cup Outside, col \in {"a", "b"} : \E c \in ClauseCalls(Fld(s, col)) :
                     /\ (s \in Outside /\ s \notin scope => c.m \in {"where", "prewhere"})       \* an outside source (table, aliased subquery, CTE reference) only in WHERE
                     /\ (c.m \in {"returning", "do_update"} => s \in scope)
